@@ -63,11 +63,12 @@ FdVals == IF NVars = 2 THEN {(X :> N(a)) @@ (Y :> N(b)) : a \in Win, b \in Win}
    verify_all_bound panics: the program is not well-formed). *)
 AllDommed == \A v \in VarsUsed : v \in Dommed(posted) \/ IsNum(Walk(v, S.smap))
 QList == ListOf(SetToSeq(VarsUsed))
-Labelled == EnforceFd(QList, S @@ [next |-> 1000])
-LabelTuples == [i \in 1..Len(Labelled) |-> [v \in VarsUsed |-> WalkStar(v, Labelled[i].smap)]]
 LabelExact ==
   (S.ok /\ AllDommed) =>
-     /\ \A i \in 1..Len(LabelTuples) : LabelTuples[i] \in FdVals /\ AllSat(LabelTuples[i])
-     /\ \A val \in FdVals : AllSat(val) => Cardinality({i \in 1..Len(LabelTuples) : LabelTuples[i] = val}) = 1
-     /\ Len(LabelTuples) = Cardinality({val \in FdVals : AllSat(val)})
+     LET labelled == EnforceFd(QList, S @@ [next |-> 1000])
+         tuples == [i \in 1..Len(labelled) |-> [v \in VarsUsed |-> WalkStar(v, labelled[i].smap)]]
+         sols == {val \in FdVals : AllSat(val)}
+     IN /\ \A i \in 1..Len(tuples) : tuples[i] \in sols
+        /\ Len(tuples) = Cardinality(sols)
+        /\ \A i, j \in 1..Len(tuples) : i # j => tuples[i] # tuples[j]
 =============================================================================
